@@ -172,7 +172,11 @@ func (o Op) String() string {
 		s += fmt.Sprintf(" ks=%v v=%d", o.Ks, o.V)
 	case "advance", "setmax":
 		s += fmt.Sprintf(" d=%d", o.D)
-	case "cleanup", "invalidateall", "all", "keys", "values", "hottest", "coldest", "getmax", "wsize", "esize", "stats", "runexec", "saveload":
+	case "all", "keys", "values", "hottest", "coldest":
+		if o.D > 0 {
+			s += fmt.Sprintf(" break-after=%d", o.D)
+		}
+	case "cleanup", "invalidateall", "getmax", "wsize", "esize", "stats", "runexec", "saveload":
 	default:
 		s += fmt.Sprintf(" k=%d", o.K)
 		if o.V != 0 {
@@ -227,16 +231,17 @@ type RefreshView struct {
 
 // Event is a deletion notification.
 type Event struct {
-	Begin  uint64 // atomic events: event sequence value when the emitting task took the bucket lock
-	Seq    uint64
-	End    uint64 // atomic events: when the table computation that invoked the handler completed
-	Atomic bool
-	K, V   int
-	Cause  otter.DeletionCause
-	Task   int    // task in whose context it fired
-	OpIdx  int    // that task's current operation index (-1 none)
-	OpKind string // and its kind
-	Now    int64
+	TaskRef *simrt.Task // the task in which the handler ran
+	Begin   uint64      // atomic events: event sequence value when the emitting task took the bucket lock
+	Seq     uint64
+	End     uint64 // atomic events: when the table computation that invoked the handler completed
+	Atomic  bool
+	K, V    int
+	Cause   otter.DeletionCause
+	Task    int    // task in whose context it fired
+	OpIdx   int    // that task's current operation index (-1 none)
+	OpKind  string // and its kind
+	Now     int64
 }
 
 type loadRec struct {
@@ -427,7 +432,7 @@ func NewRunner(w *simrt.World, cfg *Cfg) *Runner {
 }
 
 func (r *Runner) mkEvent(e otter.DeletionEvent[int, int], atomic bool) Event {
-	ev := Event{Seq: r.W.Tick(), Atomic: atomic, K: e.Key, V: e.Value, Cause: e.Cause, Task: -1, OpIdx: -1, Now: r.W.Now}
+	ev := Event{Seq: r.W.Tick(), Atomic: atomic, K: e.Key, V: e.Value, Cause: e.Cause, Task: -1, OpIdx: -1, Now: r.W.Now, TaskRef: simrt.Cur()}
 	if c := curCtx(); c != nil && c.bg == 0 {
 		ev.Task, ev.OpIdx, ev.OpKind = c.id, c.opIdx, c.opKind
 	}
@@ -750,25 +755,41 @@ func (r *Runner) Exec(op *Op) (res Result) {
 				sort.Slice(res.Refresh, func(i, j int) bool { return res.Refresh[i].K < res.Refresh[j].K })
 			})
 		}
+	// iterators: D > 0 means the caller breaks out of the loop after D entries
 	case "all":
 		for k, v := range c.All() {
 			res.Entries = append(res.Entries, EntryView{K: k, V: v})
+			if op.D > 0 && int64(len(res.Entries)) >= op.D {
+				break
+			}
 		}
 	case "keys":
 		for k := range c.Keys() {
 			res.Entries = append(res.Entries, EntryView{K: k})
+			if op.D > 0 && int64(len(res.Entries)) >= op.D {
+				break
+			}
 		}
 	case "values":
 		for v := range c.Values() {
 			res.Entries = append(res.Entries, EntryView{V: v})
+			if op.D > 0 && int64(len(res.Entries)) >= op.D {
+				break
+			}
 		}
 	case "hottest":
 		for e := range c.Hottest() {
 			res.Entries = append(res.Entries, *view(e))
+			if op.D > 0 && int64(len(res.Entries)) >= op.D {
+				break
+			}
 		}
 	case "coldest":
 		for e := range c.Coldest() {
 			res.Entries = append(res.Entries, *view(e))
+			if op.D > 0 && int64(len(res.Entries)) >= op.D {
+				break
+			}
 		}
 	case "setmax":
 		c.SetMaximum(uint64(op.D))
